@@ -20,7 +20,7 @@ pub struct C02 {
     pub probe: bool,
 }
 
-const ENUM_RUNS: u64 = 6 * 2 * 4;
+const ENUM_RUNS: u64 = 6 * 2 * 5;
 
 impl Scenario for C02 {
     fn property(&self) -> &'static str {
@@ -96,16 +96,18 @@ impl C02 {
     fn enumerate(&self, seed: u64, run: u64) -> Plan {
         let bk = Bk::ALL[(run % 6) as usize];
         let purpose = if (run / 6) % 2 == 0 { Purp::Local } else { Purp::Public };
-        let shape = (run / 12) % 4;
-        let with_footer = shape & 1 == 1;
+        let shape = (run / 12) % 5;
+        let json_footer = shape == 4;
+        let with_footer = shape & 1 == 1 || json_footer;
         let with_aad = shape & 2 == 2 && bk.has_aad();
         let mut b = Builder::new(self.name(), seed, run, vec![bk]);
         let fk = b.family_keys(bk.family(), false).unwrap();
         let now = Ns(b.now_ns);
         let msg_len = if self.probe { 13 + b.rng.usize_below(20) } else { 5 + b.rng.usize_below(28) };
         let claims = self.claims(&mut b, msg_len, false);
-        let foot_len = if with_footer { 1 + b.rng.usize_below(70) } else { 0 };
-        let footer = if with_footer { FootSpec::Bytes { bytes: b.bytes(foot_len) } } else { FootSpec::Unit };
+        let json_value = serde_json::json!({"kid": format!("k{}", b.rng.below(1000)), "n": b.rng.below(100), "wpk": "abc"});
+        let foot_len = if json_footer { serde_json::to_vec(&json_value).unwrap().len() } else if with_footer { 1 + b.rng.usize_below(70) } else { 0 };
+        let footer = if json_footer { FootSpec::Json { value: json_value } } else if with_footer { FootSpec::Bytes { bytes: b.bytes(foot_len) } } else { FootSpec::Unit };
         let aad_len = if with_aad { 1 + b.rng.usize_below(70) } else { 0 };
         let aad = if with_aad { b.bytes(aad_len) } else { Bytes::empty() };
         let tok = b.tok_slot();
@@ -167,6 +169,10 @@ impl C02 {
             for bit in 0..8 {
                 deliver(&mut b, vec![TokFault::AadFlip { byte, bit }]);
             }
+        }
+        // a typed (JSON) footer re-encoded by a proxy: same meaning, different bytes
+        for variant in 0..6u8 {
+            deliver(&mut b, vec![TokFault::FooterJsonVariant { variant }]);
         }
         deliver(&mut b, vec![TokFault::FooterRemove]);
         deliver(&mut b, vec![TokFault::FooterReplace { hex: "00".into() }]);
@@ -259,12 +265,15 @@ impl C02 {
             let msg_len = b.payload_len(false).min(2000);
             let undec = self.probe && b.rng.chance(1, 3);
             let claims = self.claims(&mut b, msg_len, undec);
-            let footer = match b.rng.below(3) {
+            let footer = match b.rng.below(4) {
                 0 => FootSpec::Unit,
+                1 => FootSpec::Json { value: serde_json::json!({"kid": format!("key-{}", b.rng.below(100)), "v": b.rng.below(10)}) },
                 _ => FootSpec::Bytes { bytes: b.small_bytes(60) },
             };
+            let json_foot = matches!(footer, FootSpec::Json { .. });
             let foot_len = match &footer {
                 FootSpec::Bytes { bytes } => bytes.len(),
+                FootSpec::Json { value } => serde_json::to_vec(value).map(|v| v.len()).unwrap_or(0),
                 _ => 0,
             };
             let aad = b.aad_for(bk);
@@ -353,7 +362,16 @@ impl C02 {
                             purp_over = Some(np);
                             key = if np == Purp::Local { fk.local } else { fk.public };
                         }
-                        20 => faults.push(TokFault::TruncMid { at: b.rng.usize_below(total.max(1)), n: 1 + b.rng.usize_below(4) }),
+                        20 => {
+                            if json_foot {
+                                let variant = b.rng.below(6) as u8;
+                                faults.push(TokFault::FooterJsonVariant { variant })
+                            } else {
+                                let at = b.rng.usize_below(total.max(1));
+                                let n = 1 + b.rng.usize_below(4);
+                                faults.push(TokFault::TruncMid { at, n })
+                            }
+                        }
                         _ => {
                             fk_over = None;
                             faults.push(TokFault::TextTrailingDot)
@@ -369,7 +387,8 @@ impl C02 {
                         fk_over = Some(crate::backend::FootKind::Bytes);
                     }
                 } else if foot_len > 0 {
-                    fk_over = None;
+                    // typed footers are parsed with their own type while only re-encoding faults are in play
+                    fk_over = if json_foot && !faults.iter().all(|f| matches!(f, TokFault::FooterJsonVariant { .. } | TokFault::FlipPayload { .. } | TokFault::AadReplace { .. } | TokFault::AadFlip { .. } | TokFault::Relabel { .. } | TokFault::TextTrailingDot)) { Some(crate::backend::FootKind::Bytes) } else { None };
                 }
                 let pk = if self.probe { Some(PayloadKind::Probe) } else { None };
                 let alias = b.rng.bool();
